@@ -4,8 +4,14 @@
 //! content (good / revoked with reason none, keyCompromise, removeFromCRL / unknown; for the signing
 //! certificate or another one; signed by a delegated responder of the issuing CA, by the CA itself,
 //! by a responder of an untrusted CA, by a responder of another trusted CA; corrupted signature,
-//! no embedded certificates, garbage; short validity window). The facts of every artefact are sent
-//! to the Lean model; the implementation is driven at three levels:
+//! no embedded certificates, garbage; short validity window). A second family is re-issued from
+//! an openssl response with hand-made `SingleResponse`s under the delegated responder's signature
+//! (`ocsp_forge.rs`): `certId`s that match the signer in the serial number and exactly one of the
+//! two issuer hashes (a second CA with the same subject name but another key; a CA with the same key
+//! but another name), stale `good` responses (nextUpdate in the past), `good` for a certificate that
+//! another response reports revoked, several `SingleResponse`s, GeneralizedTime values with
+//! fractional seconds (which `from_der_checked` fails to re-parse). The facts of every artefact are
+//! sent to the Lean model; the implementation is driven at three levels:
 //!
 //!   C37 fdc resp=<resp> st=<t|-> now=<t>        `OcspResponse::from_der_checked` (hook)
 //!                                               -> certs|nocerts log=<entries>
@@ -14,6 +20,8 @@
 //!                                               -> ok|err log=<entries>
 //!   C37 e2e staple=… st= now= rest=<entries of the same signer without staple>
 //!        Builder (direct-COSE signer) + Reader  -> <state> log=<signingCredential.ocsp.* entries>
+//!   C37 e2a staple=… asserted=…;… st= now= rest=   the same with a `c2pa.certificate-status`
+//!        assertion carrying the asserted responses (store pre-pass + revocation check)
 //!
 //! Oracle (on the implementation): a response that reports the signing certificate revoked
 //! (validly signed by the issuing CA or its delegated responder, effective at the signing time)
@@ -23,6 +31,8 @@
 mod cose_build;
 #[path = "../pki.rs"]
 mod pki;
+#[path = "../ocsp_forge.rs"]
+mod ocsp_forge;
 
 use std::{io::Cursor, sync::Arc};
 
@@ -55,6 +65,30 @@ enum St {
     Good(i64, i64),
     Revoked(i64, char), // n(one) c(removeFromCRL) o(ther)
     Unknown,
+    /// a time value with fractional seconds: `g` thisUpdate of a good status, `r` revocationTime
+    BadTime(char),
+}
+
+/// (subject-name id, key id) of the CA certificates the harness uses as issuers
+fn issuer_parts(label: &str) -> (&'static str, &'static str) {
+    match label {
+        "root-a" => ("a", "ka"),
+        "root-a2" => ("a", "ka2"), // same subject name as root-a, another key
+        "root-a3" => ("a3", "ka"), // root-a's key under another subject name
+        "root-b" => ("b", "kb"),
+        "root-c" => ("c", "kc"),
+        _ => ("?", "??"),
+    }
+}
+
+/// The three comparisons of `cert_id_matches_signer` for a SingleResponse about certificate `c`
+/// issued by `i`, against the chain [`ee`, `issuer`] (`-`: the chain has no issuer).
+fn cert_id_bits(c: &str, i: &str, ee: &str, issuer: &str) -> (bool, bool, bool) {
+    if issuer == "-" {
+        return (c == ee, false, false);
+    }
+    let ((n1, k1), (n2, k2)) = (issuer_parts(i), issuer_parts(issuer));
+    (c == ee, n1 == n2, k1 == k2)
 }
 
 #[derive(Clone, Debug)]
@@ -74,11 +108,13 @@ impl RespFacts {
             .singles
             .iter()
             .map(|(c, i, st)| {
-                let m = b(c == ee && i == issuer);
+                let (sn, nm, ky) = cert_id_bits(c, i, ee, issuer);
+                let m = format!("{}{}{}", b(sn), b(nm), b(ky));
                 match st {
                     St::Good(a, n) => format!("{m}g{a}~{n}"),
                     St::Revoked(a, r) => format!("{m}r{a}~{r}"),
                     St::Unknown => format!("{m}u"),
+                    St::BadTime(_) => format!("{m}x"),
                 }
             })
             .collect();
@@ -112,19 +148,23 @@ impl RespFacts {
         self.shape == 'P' && self.sig_ok && issuer == "root-a" && (self.responder == "deleg-a" || self.responder == "root-a")
     }
 
+    /// some `certId` identifies the signing certificate: serial number, issuer name and issuer key
     fn concerns(&self, ee: &str, issuer: &str) -> bool {
-        self.singles.iter().any(|(c, i, _)| c == ee && i == issuer)
+        self.singles.iter().any(|(c, i, _)| cert_id_bits(c, i, ee, issuer) == (true, true, true))
     }
 
     /// the response says: revoked, effective for a signature made at `st` (none: now)
     fn reports_revoked(&self, ee: &str, issuer: &str, st: Option<i64>, now: i64) -> bool {
-        let mine: Vec<&St> = self.singles.iter().filter(|(c, i, _)| c == ee && i == issuer).map(|x| &x.2).collect();
+        let mine: Vec<&St> = self.singles.iter().filter(|(c, i, _)| cert_id_bits(c, i, ee, issuer) == (true, true, true)).map(|x| &x.2).collect();
+        if mine.iter().any(|s| matches!(s, St::BadTime(_))) {
+            return false; // unreadable: the response as a whole says nothing
+        }
         let t = st.unwrap_or(now);
         let revoked = mine.iter().any(|s| matches!(s, St::Revoked(at, r) if *r == 'n' || *at <= t));
         let contradicts = mine.iter().any(|s| match s {
             St::Good(_, n) => st.map(|t| t <= *n).unwrap_or(true),
             St::Revoked(at, r) => *r != 'n' && st.map(|t| t < *at).unwrap_or(false),
-            St::Unknown => false,
+            St::Unknown | St::BadTime(_) => false,
         });
         revoked && !contradicts
     }
@@ -154,6 +194,8 @@ fn flip_last(mut v: Vec<u8>) -> Vec<u8> {
 struct Env {
     pki: Arc<Pki>,
     root_a: Cred,
+    root_a2: Cred,
+    root_a3: Cred,
     root_b: Cred,
     root_c: Cred,
     deleg_a: Cred,
@@ -207,6 +249,42 @@ impl Env {
             shape: if no_certs { 'N' } else { 'P' },
             sig_ok: true,
             singles: vec![(cert.name.clone(), "root-a".into(), st)],
+            responder: responder.to_string(),
+        };
+        Some((der, f))
+    }
+
+    fn issuer(&self, label: &str) -> &Cred {
+        match label {
+            "root-a2" => &self.root_a2,
+            "root-a3" => &self.root_a3,
+            "root-b" => &self.root_b,
+            "root-c" => &self.root_c,
+            _ => &self.root_a,
+        }
+    }
+
+    /// `template` (an openssl response signed by `responder`) re-issued with the given
+    /// `SingleResponse`s: (certificate, issuing CA the `certId` names, status).
+    fn forged(&self, template: &[u8], responder: &str, items: &[(&Cred, &str, St)]) -> Option<(Vec<u8>, RespFacts)> {
+        let now = pki::now();
+        let mut singles = vec![];
+        for (cert, issuer, st) in items {
+            let cert_id = ocsp_forge::cert_id(&self.pki, self.issuer(issuer), &self.pki.serial_hex(cert))?;
+            let (status, this_update, next_update) = match st {
+                St::Good(a, n) => (ocsp_forge::Status::Good, (*a, 0), Some(*n)),
+                St::Revoked(at, r) => (ocsp_forge::Status::Revoked(*at, 0, *r), (now, 0), Some(now + 7 * 86400)),
+                St::Unknown => (ocsp_forge::Status::Unknown, (now, 0), Some(now + 7 * 86400)),
+                St::BadTime('g') => (ocsp_forge::Status::Good, (now - 60, 500_000_000), Some(now + 7 * 86400)),
+                St::BadTime(_) => (ocsp_forge::Status::Revoked(now - 60, 500_000_000, 'n'), (now, 0), Some(now + 7 * 86400)),
+            };
+            singles.push(ocsp_forge::Single { cert_id, status, this_update, next_update });
+        }
+        let der = ocsp_forge::reissue(&self.pki, template, self.responder(responder), None, &singles)?;
+        let f = RespFacts {
+            shape: 'P',
+            sig_ok: true,
+            singles: items.iter().map(|(c, i, st)| (c.name.clone(), i.to_string(), st.clone())).collect(),
             responder: responder.to_string(),
         };
         Some((der, f))
@@ -426,6 +504,19 @@ fn cos_prepared(run: &mut Run, env: &Env, ee: &Cred, p: Prepared, staple: Option
                     run.fail(i, class, format!("{tag}: revoked response (responder {}) did not fail the revocation check", only.facts.responder));
                 }
             }
+            // (4) the statement as it stands ("stapled or asserted"): a usable response that reports
+            // revoked fails the check wherever it stands among the sources
+            if usable_ones.len() > 1 && ok {
+                if let Some(p) = considered.iter().position(|s| usable(s) && s.facts.reports_revoked(&ee.name, "root-a", st, now)) {
+                    let shadow = considered[..p].iter().position(|s| usable(s));
+                    let class = match shadow {
+                        Some(0) if staple.is_some() => "good-staple-shadows-revoked-assertion",
+                        Some(_) => "good-assertion-shadows-revoked-assertion",
+                        None => "revoked-accepted",
+                    };
+                    run.fail(i, class, format!("{tag}: ok={ok} {entries:?} although source #{p} reports the signing certificate revoked"));
+                }
+            }
         }
     }
 }
@@ -466,7 +557,32 @@ impl Signer for DirectSigner {
     }
 }
 
+/// The SDK's `CertificateStatus` (crate-private) writes and reads `ocspVals` as base64 text: the
+/// CBOR (de)serialiser it uses reports itself as human-readable.
+#[derive(serde::Serialize)]
+struct CertStatus {
+    #[serde(rename = "ocspVals")]
+    ocsp_vals: Vec<String>,
+}
+
+fn b64(data: &[u8]) -> String {
+    const T: &[u8; 64] = b"ABCDEFGHIJKLMNOPQRSTUVWXYZabcdefghijklmnopqrstuvwxyz0123456789+/";
+    let mut out = String::new();
+    for c in data.chunks(3) {
+        let n = (c[0] as u32) << 16 | (*c.get(1).unwrap_or(&0) as u32) << 8 | *c.get(2).unwrap_or(&0) as u32;
+        out.push(T[(n >> 18) as usize & 63] as char);
+        out.push(T[(n >> 12) as usize & 63] as char);
+        out.push(if c.len() > 1 { T[(n >> 6) as usize & 63] as char } else { '=' });
+        out.push(if c.len() > 2 { T[n as usize & 63] as char } else { '=' });
+    }
+    out
+}
+
 fn sign_e2e(env: &Arc<Env>, ee: &Cred, staple: Option<Vec<u8>>, with_ts: bool, src: &[u8]) -> Result<(Vec<u8>, Option<i64>), String> {
+    sign_e2e_asserted(env, ee, staple, &[], with_ts, src)
+}
+
+fn sign_e2e_asserted(env: &Arc<Env>, ee: &Cred, staple: Option<Vec<u8>>, asserted: &[Vec<u8>], with_ts: bool, src: &[u8]) -> Result<(Vec<u8>, Option<i64>), String> {
     let st = Arc::new(std::sync::Mutex::new(None));
     let env2 = env.clone();
     let mk: MkUnprot = Arc::new(move |msg: &[u8]| {
@@ -491,6 +607,10 @@ fn sign_e2e(env: &Arc<Env>, ee: &Cred, staple: Option<Vec<u8>>, with_ts: bool, s
     };
     let ctx = Context::new().with_settings(env.settings_json().as_str()).map_err(|e| format!("{e:?}"))?.with_signer(signer);
     let mut bld = Builder::from_context(ctx).with_definition(definition("c37", "image/jpeg").as_str()).map_err(|e| format!("{e:?}"))?;
+    if !asserted.is_empty() {
+        let cs = CertStatus { ocsp_vals: asserted.iter().map(|d| b64(d)).collect() };
+        bld.add_assertion("c2pa.certificate-status", &cs).map_err(|e| format!("{e:?}"))?;
+    }
     let mut out = Cursor::new(Vec::new());
     bld.save_to_stream("image/jpeg", &mut Cursor::new(src.to_vec()), &mut out).map_err(|e| format!("{e:?}"))?;
     let t = *st.lock().unwrap();
@@ -593,6 +713,74 @@ fn e2e_case(run: &mut Run, env: &Arc<Env>, ee: &Cred, staple: &Staple, with_ts: 
     }
 }
 
+/// Builder + Reader with a certificate-status assertion carrying `asserted` (and optionally a staple).
+#[allow(clippy::too_many_arguments)]
+fn e2a_case(run: &mut Run, env: &Arc<Env>, ee: &Cred, staple: Option<&Staple>, asserted: &[&Staple], src: &[u8], baseline: &(String, Vec<(char, String)>), tag: &str) {
+    run.count(&format!("e2a:{tag}"));
+    let signed = guarded({
+        let (env, ee, der, list, src) = (env.clone(), ee.clone(), staple.map(|s| s.der.clone()), asserted.iter().map(|s| s.der.clone()).collect::<Vec<_>>(), src.to_vec());
+        move || sign_e2e_asserted(&env, &ee, der, &list, false, &src)
+    });
+    let (asset, st) = match signed {
+        Ok(Ok(x)) => x,
+        other => {
+            run.notes.push(format!("e2a {tag}: signing failed: {:?}", other.map(|r| r.map(|_| ()).err())));
+            return;
+        }
+    };
+    let now = pki::now();
+    let out = read(env, &asset);
+    let enc = |s: &Staple| s.facts.enc_rr(&ee.name, "root-a");
+    // `rest`: the entries of the same signer without any revocation evidence (+ the assertion's hashed-URI match)
+    let rest: Vec<(char, String)> = baseline.1.iter().filter(|e| !is_ocsp(&e.1)).cloned().collect();
+    let req = format!(
+        "C37 e2a staple={} asserted={} st={} now={now} rest={}",
+        staple.map(enc).unwrap_or("-".into()),
+        if asserted.is_empty() { "-".to_string() } else { asserted.iter().map(|s| enc(s)).collect::<Vec<_>>().join(";") },
+        st.map(|t| t.to_string()).unwrap_or("-".into()),
+        log_str(&rest)
+    );
+    let usable = |s: &&Staple| s.facts.concerns(&ee.name, "root-a") && s.facts.validly_signed("root-a");
+    let considered: Vec<&Staple> = staple.into_iter().chain(asserted.iter().copied()).collect();
+    let all_unbound = considered.iter().all(|s| !usable(s));
+    let class_unbound = considered.iter().map(|s| unbound_class(&s.facts, &ee.name)).find(|c| *c != "unbound-changed-verdict").unwrap_or("unbound-assertion-changed-verdict");
+    let revoked_reported = considered.iter().any(|s| usable(s) && s.facts.reports_revoked(&ee.name, "root-a", st, now));
+    match out {
+        Err(p) => {
+            let i = run.case(req, "panic".into());
+            run.fail(i, "panic", p);
+        }
+        Ok(Err(e)) => {
+            let cls: String = e.chars().take_while(|c| c.is_ascii_alphanumeric()).collect();
+            let rep = if cls == "CertificateTrustError" { "read-error".to_string() } else { format!("read-error:{cls}") };
+            let i = run.case(req, rep);
+            run.nontrivial(format!("e2a:{tag}"));
+            if all_unbound {
+                run.fail(i, class_unbound, format!("{tag}: read failed ({cls}) although every response is unbound or not validly signed"));
+            }
+        }
+        Ok(Ok((state, entries))) => {
+            let ocsp: Vec<(char, String)> = entries.iter().filter(|e| is_ocsp(&e.1)).cloned().collect();
+            let i = run.case(req, format!("{state} log={}", log_str(&ocsp)));
+            run.nontrivial(format!("e2a:{tag}"));
+            if all_unbound && (state != baseline.0 || !ocsp.is_empty()) {
+                run.fail(i, class_unbound, format!("{tag}: state {state} (baseline {}), revocation entries {ocsp:?} although every response is unbound or not validly signed", baseline.0));
+            }
+            if revoked_reported && state != "invalid" {
+                let p = considered.iter().position(|s| usable(s) && s.facts.reports_revoked(&ee.name, "root-a", st, now)).unwrap_or(0);
+                let shadow = considered[..p].iter().position(|s| usable(s));
+                let class = match shadow {
+                    Some(0) if staple.is_some() => "good-staple-shadows-revoked-assertion",
+                    Some(_) => "good-assertion-shadows-revoked-assertion",
+                    None if considered[p].facts.responder == "root-a" => "revoked-by-ca-ignored",
+                    None => "revoked-accepted",
+                };
+                run.fail(i, class, format!("{tag}: state {state} although an asserted / stapled response reports the signing certificate revoked"));
+            }
+        }
+    }
+}
+
 pub fn run(run: &mut Run, rng: &mut Rng) {
     run.rule = "every case carries a real OCSP response produced by openssl ocsp (or a corrupted one); non-trivial = the case reaches from_der_checked; distinct by (level, response facts, chain, signing time)".to_string();
     let thorough = run.thorough();
@@ -601,6 +789,9 @@ pub fn run(run: &mut Run, rng: &mut Rng) {
     let t0 = pki::now();
     let day = 86400;
     let root_a = pki.root("root-a");
+    // a second CA with root-a's subject name but its own key, and root-a's key under another name
+    let root_a2 = pki.root_as("root-a2", "root-a", None);
+    let root_a3 = pki.root_as("root-a3", "root-a-renamed", Some(&root_a));
     let root_b = pki.root("root-b");
     let root_c = pki.root("root-c");
     let mut anchors = String::from_utf8(root_a.cert_pem()).unwrap();
@@ -613,6 +804,8 @@ pub fn run(run: &mut Run, rng: &mut Rng) {
         anchors,
         pki: pki.clone(),
         root_a: root_a.clone(),
+        root_a2,
+        root_a3,
         root_b,
         root_c,
     });
@@ -671,6 +864,52 @@ pub fn run(run: &mut Run, rng: &mut Rng) {
         staples.push(("garbage".into(), ee_good.clone(), Staple { der: rng.bytes(n), facts: f }));
     }
 
+    // re-issued responses (hand-made SingleResponses under deleg-a's signature)
+    let tf = pki::now();
+    if let Some(template) = staples.iter().find(|s| s.0 == "good/deleg-a").map(|s| s.2.der.clone()) {
+        let fresh = St::Good(tf - 3600, tf + 7 * day);
+        let stale = St::Good(tf - 10 * day, tf - 3 * day);
+        let rev = |r: char| St::Revoked(tf - 7200, r);
+        let forged: Vec<(&str, &Cred, Vec<(&Cred, &str, St)>)> = vec![
+            // sanity: the forge itself yields usable responses
+            ("forged-good", &ee_good, vec![(&ee_good, "root-a", fresh.clone())]),
+            ("forged-revoked-n", &ee_good, vec![(&ee_good, "root-a", rev('n'))]),
+            // same serial number, exactly one of the two issuer hashes
+            ("samename-revoked", &ee_good, vec![(&ee_good, "root-a2", rev('n'))]),
+            ("samekey-revoked", &ee_good, vec![(&ee_good, "root-a3", rev('n'))]),
+            ("samename-revoked-o", &ee_good, vec![(&ee_good, "root-a2", rev('o'))]),
+            ("samekey-revoked-c", &ee_good, vec![(&ee_good, "root-a3", rev('c'))]),
+            ("samename-good", &ee_rev_o, vec![(&ee_rev_o, "root-a2", fresh.clone())]),
+            ("samekey-good", &ee_rev_o, vec![(&ee_rev_o, "root-a3", fresh.clone())]),
+            ("samename-unknown", &ee_good, vec![(&ee_good, "root-a2", St::Unknown)]),
+            ("otherca-revoked", &ee_good, vec![(&ee_good, "root-b", rev('n'))]),
+            // `good` for a certificate that the CA reports revoked (as issued before the revocation)
+            ("good-for-revoked", &ee_rev_o, vec![(&ee_rev_o, "root-a", fresh.clone())]),
+            // stale: nextUpdate three days ago
+            ("stale-good", &ee_good, vec![(&ee_good, "root-a", stale.clone())]),
+            ("stale-good-for-revoked", &ee_rev_o, vec![(&ee_rev_o, "root-a", stale.clone())]),
+            // several SingleResponses
+            ("multi:other+revoked", &ee_rev_o, vec![(&ee_good, "root-a", fresh.clone()), (&ee_rev_o, "root-a", rev('o'))]),
+            ("multi:samekey-good+revoked", &ee_rev_o, vec![(&ee_rev_o, "root-a3", fresh.clone()), (&ee_rev_o, "root-a", rev('n'))]),
+            ("multi:revoked+good", &ee_rev_o, vec![(&ee_rev_o, "root-a", rev('n')), (&ee_rev_o, "root-a", fresh.clone())]),
+            ("multi:unknown+revoked", &ee_rev_o, vec![(&ee_rev_o, "root-a", St::Unknown), (&ee_rev_o, "root-a", rev('c'))]),
+            // time values `from_der_checked` cannot re-parse
+            ("badtime-good", &ee_good, vec![(&ee_good, "root-a", St::BadTime('g'))]),
+            ("badtime-revoked", &ee_rev_o, vec![(&ee_rev_o, "root-a", St::BadTime('r'))]),
+            ("multi:revoked+badtime", &ee_rev_o, vec![(&ee_rev_o, "root-a", rev('n')), (&ee_rev_o, "root-a", St::BadTime('r'))]),
+            ("multi:badtime-other+revoked", &ee_rev_o, vec![(&ee_good, "root-a", St::BadTime('r')), (&ee_rev_o, "root-a", rev('n'))]),
+        ];
+        for (tag, cert, items) in forged {
+            match env.forged(&template, "deleg-a", &items) {
+                Some((der, facts)) => staples.push((tag.to_string(), (*cert).clone(), Staple { der, facts })),
+                None => run.notes.push(format!("response {tag}: re-issuing failed")),
+            }
+        }
+    } else {
+        run.notes.push("no template for re-issued responses".into());
+    }
+    run.obligations.insert("re-issued responses present".into(), staples.iter().any(|s| s.0 == "samekey-revoked") && staples.iter().any(|s| s.0 == "samename-good"));
+
     // --- fdc
     let chain_of = |ee: &Cred, issuer: &Cred| vec![ee.cert_der(), issuer.cert_der()];
     let t_now = pki::now();
@@ -681,7 +920,7 @@ pub fn run(run: &mut Run, rng: &mut Rng) {
                 match st {
                     St::Good(a, n) => v.extend([Some(*a - 1), Some(*a), Some(*n), Some(*n + 1)]),
                     St::Revoked(a, _) => v.extend([Some(*a - 1), Some(*a), Some(*a + 1)]),
-                    St::Unknown => {}
+                    St::Unknown | St::BadTime(_) => {}
                 }
             }
             v
@@ -693,6 +932,9 @@ pub fn run(run: &mut Run, rng: &mut Rng) {
                 let other = if cert.name == "ee-good" { &ee_rev_o } else { &ee_good };
                 fdc_case(run, &s.der, &s.facts, &chain_of(other, &root_a), &other.name, "root-a", *st, &format!("{tag}/other-cert"));
                 fdc_case(run, &s.der, &s.facts, &chain_of(cert, &env.root_b), &cert.name, "root-b", *st, &format!("{tag}/wrong-issuer"));
+                // the chain names a CA that shares only the subject name / only the key with the response's issuer
+                fdc_case(run, &s.der, &s.facts, &chain_of(cert, &env.root_a2), &cert.name, "root-a2", *st, &format!("{tag}/issuer-samename"));
+                fdc_case(run, &s.der, &s.facts, &chain_of(cert, &env.root_a3), &cert.name, "root-a3", *st, &format!("{tag}/issuer-samekey"));
                 fdc_case(run, &s.der, &s.facts, &[cert.cert_der()], &cert.name, "-", *st, &format!("{tag}/no-issuer"));
             }
         }
@@ -702,8 +944,11 @@ pub fn run(run: &mut Run, rng: &mut Rng) {
     let find = |t: &str| staples.iter().find(|s| s.0 == t).map(|s| &s.2);
     for (tag, cert, s) in &staples {
         for with_ts in [false, true] {
-            if !thorough && with_ts && !(tag.starts_with("good") || tag.starts_with("revoked")) {
+            if !thorough && with_ts && !(tag.starts_with("good") || tag.starts_with("revoked") || tag.starts_with("stale") || tag.starts_with("same")) {
                 continue;
+            }
+            if tag.starts_with("stale-good") && !with_ts {
+                run.count("witness:stale-good-clears-without-time");
             }
             cos_case(run, &env, cert, Some(s), &[], with_ts, &format!("{tag}/ts{}", b(with_ts)), rng);
             // stapled into a manifest signed by another certificate
@@ -724,11 +969,45 @@ pub fn run(run: &mut Run, rng: &mut Rng) {
             ("list:unknown-then-good", &ee_good, vec![u, g]),
             ("list:untrusted-revoked-only", &ee_good, vec![rb]),
         ];
+        let mut lists = lists;
+        let f = |t: &str| find(t);
+        if let (Some(sng), Some(skg), Some(snr), Some(skr), Some(gfr), Some(sgfr), Some(bt)) = (f("samename-good"), f("samekey-good"), f("samename-revoked"), f("samekey-revoked"), f("good-for-revoked"), f("stale-good-for-revoked"), f("badtime-revoked")) {
+            lists.extend(vec![
+                // one matching issuer hash must not vouch for / condemn the signer
+                ("list:samename-good-then-revoked", &ee_rev_o, vec![sng, r]),
+                ("list:samekey-good-then-revoked", &ee_rev_o, vec![skg, r]),
+                ("list:samename-revoked-then-good", &ee_good, vec![snr, g]),
+                ("list:samekey-revoked-then-good", &ee_good, vec![skr, g]),
+                ("list:samekey-revoked-only", &ee_good, vec![skr]),
+                // an unreadable response is skipped
+                ("list:badtime-then-revoked", &ee_rev_o, vec![bt, r]),
+                // the statement's "or asserted" clause, falsified: an earlier `good` wins
+                ("shadow:good-assertion-then-revoked", &ee_rev_o, vec![gfr, r]),
+                ("shadow:stale-good-assertion-then-revoked", &ee_rev_o, vec![sgfr, r]),
+            ]);
+        }
         for (tag, ee, l) in lists {
+            if tag.starts_with("shadow:") {
+                run.count("witness:asserted-revoked-never-valid-false");
+            }
             cos_case(run, &env, ee, None, &l, false, tag, rng);
             // a stapled response takes precedence over the list
             if !l.is_empty() {
                 cos_case(run, &env, ee, Some(gb), &l, false, &format!("{tag}+untrusted-staple"), rng);
+            }
+        }
+        // a good (even stale) *staple* shadows a revoked asserted response; with a time-stamp
+        // after nextUpdate the stale staple is itself filed under "revoked"
+        for (tag, with_ts) in [("good-for-revoked", false), ("good-for-revoked", true), ("stale-good-for-revoked", false), ("stale-good-for-revoked", true)] {
+            if let Some(s) = find(tag) {
+                run.count("witness:asserted-revoked-never-valid-false");
+                cos_case(run, &env, &ee_rev_o, Some(s), &[r], with_ts, &format!("shadow:{tag}-staple+revoked-assertion/ts{}", b(with_ts)), rng);
+            }
+        }
+        // a staple with one matching issuer hash in front of the list
+        for tag in ["samekey-good", "samename-good"] {
+            if let Some(s) = find(tag) {
+                cos_case(run, &env, &ee_rev_o, Some(s), &[r], false, &format!("{tag}-staple+revoked-assertion"), rng);
             }
         }
     }
@@ -747,7 +1026,7 @@ pub fn run(run: &mut Run, rng: &mut Rng) {
         }
     }
     for (tag, cert, s) in &staples {
-        let quick_set = ["good/deleg-a", "revoked-o/deleg-a", "revoked-o/root-a", "revoked-o/resp-b", "revoked-o/resp-c", "revoked-n/deleg-a", "revoked-c/deleg-a", "unknown/deleg-a", "revoked-o/deleg-a+flipsig", "revoked-nocerts/deleg-a", "garbage", "good/resp-c"];
+        let quick_set = ["good/deleg-a", "revoked-o/deleg-a", "revoked-o/root-a", "revoked-o/resp-b", "revoked-o/resp-c", "revoked-n/deleg-a", "revoked-c/deleg-a", "unknown/deleg-a", "revoked-o/deleg-a+flipsig", "revoked-nocerts/deleg-a", "garbage", "good/resp-c", "samename-revoked", "samekey-revoked", "samename-good", "samekey-good", "stale-good", "badtime-revoked", "forged-revoked-n"];
         if !thorough && !quick_set.contains(&tag.as_str()) {
             continue;
         }
@@ -767,6 +1046,68 @@ pub fn run(run: &mut Run, rng: &mut Rng) {
             }
         }
     }
+    // --- e2a: the same evidence carried in a certificate-status assertion
+    {
+        let f = |t: &str| find(t);
+        let mut cases: Vec<(&str, &Cred, Option<&Staple>, Vec<&Staple>)> = vec![];
+        if let (Some(g), Some(r), Some(gb), Some(rb)) = (f("good/deleg-a"), f("revoked-o/deleg-a"), f("good/resp-b"), f("revoked-o/resp-b")) {
+            cases.extend(vec![
+                ("good", &ee_good, None, vec![g]),
+                ("revoked", &ee_rev_o, None, vec![r]),
+                ("untrusted-good", &ee_good, None, vec![gb]),
+                ("untrusted-revoked", &ee_rev_o, None, vec![rb]),
+                ("untrusted-revoked-for-other", &ee_good, None, vec![rb]),
+                ("revoked-for-other", &ee_good, None, vec![r]),
+                ("untrusted-good-then-revoked", &ee_rev_o, None, vec![gb, r]),
+                ("untrusted-revoked-then-good", &ee_good, None, vec![rb, g]),
+                ("untrusted-staple+revoked", &ee_rev_o, Some(gb), vec![r]),
+            ]);
+            if let (Some(skr), Some(snr), Some(skg), Some(fs), Some(gfr), Some(bt), Some(un)) = (f("samekey-revoked"), f("samename-revoked"), f("samekey-good"), f("revoked-o/deleg-a+flipsig"), f("good-for-revoked"), f("badtime-revoked"), f("unknown/deleg-a")) {
+                cases.extend(vec![
+                    ("samekey-revoked", &ee_good, None, vec![skr]),
+                    ("samename-revoked", &ee_good, None, vec![snr]),
+                    ("samekey-good-then-revoked", &ee_rev_o, None, vec![skg, r]),
+                    ("flipsig-revoked", &ee_rev_o, None, vec![fs]),
+                    ("badtime-revoked", &ee_rev_o, None, vec![bt]),
+                    ("unknown", &ee_unk, None, vec![un]),
+                    ("shadow:good-then-revoked", &ee_rev_o, None, vec![gfr, r]),
+                    ("shadow:good-staple+revoked", &ee_rev_o, Some(gfr), vec![r]),
+                ]);
+            }
+        }
+        // baseline with an (empty-effect) assertion present is the plain baseline plus one hashed-URI match;
+        // take it from a manifest whose assertion holds only garbage
+        let garbage = f("garbage");
+        for (tag, ee, staple, list) in cases {
+            let bl = match (garbage, baselines.get(&ee.name)) {
+                (Some(gs), Some(_)) => {
+                    let signed = guarded({
+                        let (env, ee, src, d) = (env.clone(), (*ee).clone(), src.clone(), gs.der.clone());
+                        move || sign_e2e_asserted(&env, &ee, None, &[d], false, &src)
+                    });
+                    match signed {
+                        Ok(Ok((asset, _))) => match read(&env, &asset) {
+                            Ok(Ok(x)) => Some(x),
+                            other => {
+                                run.notes.push(format!("e2a {tag}: baseline read failed: {:?}", other.map(|r| r.map(|_| ()).err())));
+                                None
+                            }
+                        },
+                        other => {
+                            run.notes.push(format!("e2a {tag}: baseline signing failed: {:?}", other.map(|r| r.map(|_| ()).err())));
+                            None
+                        }
+                    }
+                }
+                _ => None,
+            };
+            match bl {
+                Some(bl) => e2a_case(run, &env, ee, staple, &list, &src, &bl, tag),
+                None => run.notes.push(format!("e2a {tag}: no baseline")),
+            }
+        }
+    }
+
     // signed and time-stamped before the revocation: the later "revoked" response does not apply;
     // the same response with a signature time-stamped after the revocation does
     if let Some(s) = find("revoked-late/deleg-a") {
